@@ -28,6 +28,20 @@ func sweepRange(e *convtab.Entry, blk convtab.BlockFn, in, out []int64, from int
 			return true, in[i-1], in[i]
 		}
 	}
+	// the same range in descending order must give the same result for every value
+	rin, rout := make([]int64, n), make([]int64, n)
+	for i := range rin {
+		rin[i] = in[n-1-i]
+	}
+	blk(rin, nil, rout, nil)
+	for i := range rin {
+		if rout[i] != out[n-1-i] {
+			if i > 0 {
+				return true, rin[i], rin[i-1]
+			}
+			return true, rin[i], rin[i]
+		}
+	}
 	return false, 0, 0
 }
 
@@ -50,7 +64,7 @@ func TestSweep(t *testing.T) {
 			for i := range all {
 				all[i] = int64(i) - 128
 			}
-			for _, pad := range []int{0, 1024, 4352, 70000} {
+			for _, pad := range []int{0, 1024, 4353, 70001} {
 				Oracle.One(t, env, rec, "sweep", &Case{S: e.S.Name, D: e.D.Name, Amps: all, Pad: pad})
 			}
 			for i := range all {
